@@ -42,11 +42,18 @@ def show_term(t):
     from .oracle import SIG
     return '(' + t[0] + ''.join(' ' + (str(a) if k in 'sb' else show_term(a)) for k, a in zip(SIG[t[0]], t[1:])) + ')'
 
+def show_pat(t):
+    from .oracle import SIG
+    if isinstance(t, str): return t
+    return '(' + t[0] + ''.join(' ' + (str(a) if k in 'sb' else show_pat(a)) for k, a in zip(SIG[t[0]], t[1:])) + ')'
+
 def op_line(op):
+    if op[0] == 'ematch': return 'ematch ' + show_pat(op[1])
+    if op[0] == 'rewrite': return 'rewrite ' + ' ; '.join('%s | %s | %s' % (r[1], show_pat(r[2]), show_pat(r[3])) for r in op[1])
     return op[0] + ' ' + ' '.join(show_term(x) if isinstance(x, (tuple, list)) else str(x) for x in op[1:])
 
 def case_text(cid, tmpl, values, f0, named_max):
-    lines = ['case %s %s %s %d %d' % (cid, tmpl.lang, tmpl.analysis, f0, named_max), 'names ' + ' '.join(str(v) for v in values)]
+    lines = ['case %s %s %s %d %d%s' % (cid, tmpl.lang, tmpl.analysis, f0, named_max, ' light' if getattr(tmpl, 'light', False) else ''), 'names ' + ' '.join(str(v) for v in values)]
     for op in tmpl.ops: lines.append(op_line(op))
     return '\n'.join(lines) + '\n'
 
@@ -60,11 +67,12 @@ def run_cases(text, profile='release', timeout=600):
         if 'case' in r: out[r['case']] = r
     return out
 
-_CMP_KEYS = ('eq', 'live', 'nodes', 'progress', 'classes', 'union_ret', 'readd')
+_CMP_KEYS = ('eq', 'live', 'nodes', 'progress', 'classes', 'union_ret', 'readd', 'probe', 'ematch', 'rewrite_ret')
 def _norm_step(s):
     d = {k: s.get(k) for k in _CMP_KEYS if k in s}
     if 'classes' in d: d['classes'] = {i: {k: v for k, v in c.items() if k in ('nslots', 'gcount', 'data')} for i, c in d['classes'].items()}
-    d['canon'] = [{k: c[k] for k in ('id', 'idem', 'nslots', 'vals', 'map', 'hvals')} for c in s['canon']]
+    d['canon'] = [None if c is None else {k: c[k] for k in ('id', 'idem', 'nslots', 'vals', 'map', 'hvals')} for c in s['canon']]
+    if d.get('ematch'): d['ematch'] = {'unchanged': d['ematch']['unchanged'], 'matches': sorted(d['ematch']['matches'], key=lambda x: json.dumps(x, sort_keys=True))}
     chk = s.get('check')
     if chk is not None:
         d['check'] = 'ok' if chk.get('check') == 'ok' else 'panic'
